@@ -158,7 +158,8 @@ Section Eval.
                               let st1 := dset (log_path tc o) (FLog [run_token tc]) (w_store w4) in
                               let st2 := if persisting (c_data tc) then dset final (FValue v) st1 else st1 in
                               let st3 := dset (info_path tc o) (FInfo (run_info tc o (List.length (w_runlog w3)) ins)) st2 in
-                              (set_state id {| os_mem := Some v; os_forced := os_forced s |} (with_store st3 w4), inl v)
+                              (* the forced recomputation has happened: the mark is consumed *)
+                              (set_state id {| os_mem := Some v; os_forced := false |} (with_store st3 w4), inl v)
                           end
                         end
                     end
